@@ -6,6 +6,9 @@
 (*   "create" : Build in one call, then read the payload length back       *)
 (*   "split"  : copy ; id fields ; finalize  (must equal Build)            *)
 (*   "long"   : finalize alone for every length the 9-bit field expresses  *)
+(*   "near"   : Build on prior contents that are Build's own result with   *)
+(*              one header bit flipped / stale pad bytes / one payload bit *)
+(*              flipped ("message already in place" short cuts)            *)
 (***************************************************************************)
 EXTENDS CanBuild, Json, FiniteSets
 CONSTANTS Scn, Lens, Kinds, NBg
@@ -26,13 +29,28 @@ Ids == { V64(0), V64(1), V64(2047), V64(2048), <<0,0,0,0,31,255,255,255>>, <<0,0
 ArenaLen(kind, len) == 2 + MsgLen(kind, len) + 3
 CanOp(op, kind, id, fd, len, payload) == [op |-> op, kind |-> kind, id |-> id, fd |-> fd, len |-> len, payload |-> payload]
 
-CInit ==
+NearIds == { V64(291), <<0,0,0,0,31,255,255,255>>, <<0,0,0,0,128,0,1,35>> }
+NearImages(kind, len, id, fd, payload, k) ==
+  LET h == 2  H == HdrLen[ViewOf(kind)]
+      post == Build(Pat(k, ArenaLen(kind, len)), h, kind, id, fd, payload) IN
+     { FlipBit(post, 8*h + p) : p \in 0..(8*H - 1) }
+  \cup (IF PadOf(len) > 0 THEN { [i \in 1..Len(post) |-> IF i > h + H + len /\ i <= h + H + len + PadOf(len) THEN 238 ELSE post[i]] \o << >> } ELSE {})
+  \cup (IF len > 0 THEN { FlipBit(post, 8*(h + H) + 7), FlipBit(post, 8*(h + H + len) - 8) } ELSE {})
+CInitNear ==
+  \E kind \in Kinds : \E len \in Lens : \E k \in 1..NBg : \E id \in NearIds : \E fd \in {0, 1} :
+   \E img \in NearImages(kind, len, id, fd, Payload(0, len), k + 1) :
+     /\ hb = [b \in Buf |-> 2] /\ out = Sentinel /\ n = 0 /\ acc = << >>
+     /\ mem = [b \in Buf |-> img]
+     /\ step = CanOp("start", kind, id, fd, len, Payload(0, len)) @@ [base |-> 2, pre |-> << >>, post |-> << >>, ret |-> 0]
+
+CInitPlain ==
   \E kind \in Kinds : \E len \in Lens : \E k \in 1..NBg : \E pre \in {0, 1} :
      /\ hb = [b \in Buf |-> 2] /\ out = Sentinel /\ n = 0 /\ acc = << >>
      /\ mem = [b \in Buf |->
                  LET a == Pat(k, ArenaLen(kind, len)) IN
                  IF pre = 0 THEN InitSem(a, 2, ViewOf(kind)) ELSE a]    \* fresh Init, or every field non-zero
      /\ step = CanOp("start", kind, Zero64, 0, len, << >>) @@ [base |-> 2, pre |-> << >>, post |-> << >>, ret |-> 0]
+CInit == IF Scn = "near" THEN CInitNear ELSE CInitPlain
 
 DoCan(o) ==
   \E r \in { CanApply(mem[1], hb[1], o) } :
@@ -56,6 +74,8 @@ CNext ==
                     (DoCan(CanOp("idfields", kind, id, fd, len, << >>))
                      /\ acc' = Build(step.pre, hb[1], kind, id, fd, step.payload))
             \/ /\ n = 2 /\ DoCan(CanOp("finalize", kind, Zero64, 0, len, << >>)) /\ acc' = acc
+       [] Scn = "near" ->
+            /\ n = 0 /\ DoCan(CanOp("create", kind, step.id, step.fd, len, step.payload)) /\ acc' = acc
        [] Scn = "long" ->
             /\ n = 0 /\ DoCan(CanOp("finalize", kind, Zero64, 0, len, << >>)) /\ acc' = acc
 CSpec == CInit /\ [][CNext]_cvars
